@@ -88,6 +88,7 @@ func runConservation(e *Env, prop string) {
 	if !routing {
 		e.ProbeDecl("tag-repeated-on-the-wire")
 	}
+	e.ProbeDecl("burst-read-as-one-batch")
 	cfg := W1Config{
 		Readers:    e.Range(1, 3),
 		Parsers:    e.Range(1, 4),
@@ -331,8 +332,43 @@ func runConservation(e *Env, prop string) {
 					// oracle accepts both, the trace cannot be the same
 					e.Unstable("datagram-in-flight-across-a-flush")
 				}
-				w.Send(c, dg.payload)
+				// sometimes more datagrams are waiting in the socket buffer and the reader gets them in one
+				// batch (recvmmsg): they share one receive timestamp and go through the parser together
+				burst := []*dgram{dg}
+				burstClients := []int{c}
+				if i == 0 && cfg.BatchSize > 1 && e.Chance(1, 4) {
+					for c2 := range queues {
+						for len(queues[c2]) > 0 && len(burst) < cfg.BatchSize && e.Bool() {
+							burst = append(burst, queues[c2][0])
+							burstClients = append(burstClients, c2)
+							queues[c2] = queues[c2][1:]
+						}
+					}
+				}
+				if len(burst) > 1 {
+					var ps [][]byte
+					for _, b := range burst {
+						ps = append(ps, b.payload)
+					}
+					w.SendBurst(burstClients, ps)
+					e.Probe("burst-read-as-one-batch")
+				} else {
+					w.Send(c, dg.payload)
+				}
 				now := time.Now().UnixNano()
+				var burstDPs []*DP
+				for _, b := range burst[1:] {
+					for j := range b.dps {
+						burstDPs = append(burstDPs, &b.dps[j])
+					}
+					e.Event("deliver (same batch) %q", b.payload)
+				}
+				for _, d := range burstDPs {
+					d.TS = now
+					k := d.Key(cfg.Namespace)
+					model.Add(k, *d)
+					sentKeys[k] = true
+				}
 				for _, d := range dg.dps {
 					d.TS = now
 					k := d.Key(cfg.Namespace)
